@@ -910,6 +910,55 @@ def build_zone(zid, periods, cut, tail):
     return _PrecalculatedDateTimeZone(zid, ivs, None if tail is None else mk_map(tail))
 
 
+def _check_zone(acc, K, case, periods, cut, tail, pool, part="zone"):
+    """one synthetic precalculated zone: every period written in the documented encoding, read back as the same interval
+    list, re-encoded to the same bytes"""
+    cls = "tail" if tail else "no-tail"
+    acc.count(states=1, transitions=2)
+    try:
+        z = build_zone("Syn/thetic", periods, cut, tail)
+    except Exception as e:  # noqa: BLE001
+        if exc_origin(e) == "harness":
+            raise
+        acc.outcome("%s: not constructible (%s)" % (part, type(e).__name__))
+        return
+    try:
+        buf = io.BytesIO()
+        work = None if pool is None else list(pool)
+        z._write(W(buf, work))
+        chunk = buf.getvalue()
+        exp = M.enc_precalc(periods, cut, tail, pool)
+        acc.count(evaluations=1, nontrivial=1)
+        acc.outcome("%s:%d-periods/%s" % (part, len(periods), cls))
+        if chunk != exp or work != pool:
+            try:
+                wrote = M.Dec(chunk, None if pool is None else list(range(len(pool) + 8))).count()
+            except M.Bad:
+                wrote = None
+            K.v(part, "bytes", cls, None, lambda: "synthetic zone %r with %d periods written as %s (period count on the wire: %r), documented encoding %s"
+                % (case["zone"], len(periods), chunk.hex(), wrote, exp.hex()), case)
+        rs = io.BytesIO(chunk)
+        back = _PrecalculatedDateTimeZone._read(R(rs, work), "Syn/thetic")
+        if rs.tell() != len(chunk):
+            K.v(part, "position", cls, None, lambda: "reader consumed %d of %d bytes" % (rs.tell(), len(chunk)), case)
+        steps = len(periods) + (3 if tail else 0)
+        w1 = walk(z, steps)
+        w2 = walk(back, steps)
+        want = []
+        for j, (s, name, wall, sav) in enumerate(periods):
+            e = periods[j + 1][0] if j + 1 < len(periods) else cut
+            want.append((s, e, name, wall, sav, wall * 1000, sav * 1000))
+        keep = len(periods) - (1 if tail else 0)
+        if w2 != w1 or w2[:keep] != want[:keep]:
+            K.v(part, "roundtrip", cls, None, lambda: "zone read back walks %r, written zone walks %r, periods given %r" % (w2[:5], w1[:5], want[:5]), case)
+        buf2 = io.BytesIO()
+        back._write(W(buf2, None if pool is None else list(pool)))
+        if buf2.getvalue() != chunk:
+            K.v(part, "reencode", cls, None, lambda: "zone read back re-encodes to %s, it was read from %s" % (buf2.getvalue().hex(), chunk.hex()), case)
+    except Exception as e:  # noqa: BLE001
+        acc.lib_exception("C14/%s/%s" % (part, cls), e, case)
+
+
 def part_synthetic_zones(acc, arg):
     depth, shard, nshards, use_pool = arg
     K = Keys(acc)
@@ -918,40 +967,109 @@ def part_synthetic_zones(acc, arg):
         if i % nshards != shard:
             continue
         case = {"zone": {"base": ident[0], "deltas": list(ident[1]), "tail": ident[2]}, "pool": use_pool}
-        cls = "tail" if tail else "no-tail"
-        acc.count(states=1, transitions=2)
-        try:
-            z = build_zone("Syn/thetic", periods, cut, tail)
-        except Exception as e:  # noqa: BLE001
-            if exc_origin(e) == "harness":
-                raise
-            acc.outcome("zone: not constructible (%s)" % type(e).__name__)
-            continue
-        try:
-            buf = io.BytesIO()
-            work = None if pool is None else list(pool)
-            z._write(W(buf, work))
-            chunk = buf.getvalue()
-            exp = M.enc_precalc(periods, cut, tail, pool)
-            acc.count(evaluations=1, nontrivial=1)
-            acc.outcome("zone:%d-periods/%s" % (len(periods), cls))
-            if chunk != exp or work != pool:
-                K.v("zone", "bytes", cls, None, lambda: "synthetic zone %r written as %s, documented encoding %s" % (case["zone"], chunk.hex(), exp.hex()), case)
-            rs = io.BytesIO(chunk)
-            back = _PrecalculatedDateTimeZone._read(R(rs, work), "Syn/thetic")
-            if rs.tell() != len(chunk):
-                K.v("zone", "position", cls, None, lambda: "reader consumed %d of %d bytes" % (rs.tell(), len(chunk)), case)
-            steps = len(periods) + (3 if tail else 0)
-            w1 = walk(z, steps)
-            w2 = walk(back, steps)
-            want = []
-            for j, (s, name, wall, sav) in enumerate(periods):
-                e = periods[j + 1][0] if j + 1 < len(periods) else cut
-                want.append((s, e, name, wall, sav, wall * 1000, sav * 1000))
-            if w2 != w1 or w2[:len(periods) - (1 if tail else 0)] != want[:len(periods) - (1 if tail else 0)]:
-                K.v("zone", "roundtrip", cls, None, lambda: "zone read back walks %r, written zone walks %r, periods given %r" % (w2[:4], w1[:4], want[:4]), case)
-        except Exception as e:  # noqa: BLE001
-            acc.lib_exception("C14/zone/%s" % cls, e, case)
+        _check_zone(acc, K, case, periods, cut, tail, pool)
+
+
+# period contents: (name, wall offset, savings).  B..D each differ from A in exactly one component; equal neighbours included
+NEIGHBOUR_TRIPLES = {"A": ("AAA", 0, 0), "B": ("BBB", 0, 0), "C": ("AAA", 3600, 0), "D": ("AAA", 3600, 3600)}
+
+
+def part_neighbour_zones(acc, arg):
+    """every sequence of 1..maxlen period contents over NEIGHBOUR_TRIPLES (AA, ABA, AAB, ABB, AAA, ...), with and without tail"""
+    maxlen, use_pool = arg
+    K = Keys(acc)
+    pool = (["pad%d" % i for i in range(126)] + ["AAA", "BBB", "GMT", "BST"]) if use_pool else None
+    base = M.days_from_civil(1900, 1, 1) * M.TICKS_PER_DAY
+    step = 5000 * TPH
+    for n in range(1, maxlen + 1):
+        for pat in itertools.product("ABCD", repeat=n):
+            for tailed in (False, True):
+                starts = [M.NEG] + [base + i * step for i in range(n - 1)]
+                periods = [(st,) + NEIGHBOUR_TRIPLES[c] for st, c in zip(starts, pat)]
+                cut = (base + (n - 1) * step) if tailed else M.POS
+                equal_neighbours = any(pat[i] == pat[i + 1] for i in range(n - 1))
+                case = {"zone": {"pattern": "".join(pat), "tail": tailed}, "pool": use_pool}
+                _check_zone(acc, K, case, periods, cut, ZONE_TAIL if tailed else None, pool, part="zone-neighbours")
+                if equal_neighbours:
+                    acc.outcome("zone-neighbours: pattern with equal neighbouring periods")
+
+
+# writer call histories with operations of the pool's owner interposed ---------------------------------------------------
+
+WH_STRINGS = ("s0", "s1", "été")
+WH_OPS = ("w0", "w1", "w2", "dict", "clear", "reverse", "insert")
+
+
+def part_writer_histories(acc, arg):
+    """ONE writer and ONE shared pool list; every history of <= depth operations starting with `first` over
+    {write_string(s0|s1|s2), write_dictionary({s0: s1}), pool.clear(), pool.reverse(), pool.insert(0, "x")}, from an empty and
+    from a pre-populated pool.  Model: the pool is a plain list - a write appends the string if it is missing and encodes the
+    index the string has in the pool at that moment; the bytes of each write are decoded with the pool as it is then."""
+    first, depth = arg
+    n_hist = n_steps = n_nontriv = 0
+    for initial in ((), ("s1", "s0", "pad")):
+        for n in range(0, depth):
+            for rest in itertools.product(WH_OPS, repeat=n):
+                hist = (first,) + rest
+                n_hist += 1
+                pool = list(initial)
+                model = list(initial)
+                buf = io.BytesIO()
+                w = W(buf, pool)
+                prev = "start"
+                owner_acted = False
+                for op in hist:
+                    n_steps += 1
+                    pos = buf.tell()
+                    case = {"part": "writer-history", "initial_pool": list(initial), "history": list(hist)}
+                    key = "C14/writer-history/%s/after-%s" % (op, prev)
+                    try:
+                        if op == "clear":
+                            pool.clear()
+                            model.clear()
+                            owner_acted = True
+                        elif op == "reverse":
+                            pool.reverse()
+                            model.reverse()
+                            owner_acted = True
+                        elif op == "insert":
+                            pool.insert(0, "x")
+                            model.insert(0, "x")
+                            owner_acted = True
+                        else:
+                            if op == "dict":
+                                strs = [WH_STRINGS[0], WH_STRINGS[1]]
+                                w.write_dictionary({strs[0]: strs[1]})
+                                exp = M.enc_count(1)
+                            else:
+                                strs = [WH_STRINGS[int(op[1])]]
+                                w.write_string(strs[0])
+                                exp = b""
+                            for st in strs:
+                                if st not in model:
+                                    model.append(st)
+                                exp += M.enc_count(model.index(st))
+                            got = buf.getvalue()[pos:]
+                            if owner_acted:
+                                n_nontriv += 1
+                            if got != exp or pool != model:
+                                acc.violation(key, "history %r from pool %r: %s emitted %s with the pool %r; the string(s) %r are at index(es) %r, i.e. %s"
+                                              % (hist, list(initial), op, got.hex(), pool, strs, [model.index(x) for x in strs], exp.hex()), case)
+                                break
+                            r = R(io.BytesIO(got), list(pool))
+                            back = list(r.read_dictionary().items())[0] if op == "dict" else (r.read_string(),)
+                            if list(back) != strs:
+                                acc.violation(key, "history %r from pool %r: the bytes %s of %s read back with the pool of that moment give %r, written %r"
+                                              % (hist, list(initial), got.hex(), op, back, strs), case)
+                                break
+                    except Exception as e:  # noqa: BLE001
+                        if exc_origin(e) == "harness":
+                            raise
+                        acc.violation(key, "history %r from pool %r: %s raised %s(%s)" % (hist, list(initial), op, type(e).__name__, str(e)[:80]), case)
+                        break
+                    prev = op
+    acc.count(states=n_hist, evaluations=n_hist, transitions=n_steps, nontrivial=n_nontriv)
+    acc.outcome("writer-history:first=%s" % first, n_hist)
 
 
 # ---------------------------------------------------------------------------------------------- parts: the two real files
@@ -1324,6 +1442,7 @@ PARTS = {
     "strings": part_strings, "dicts": part_dicts, "year-offsets": part_year_offsets, "recurrences": part_recurrences,
     "maps": part_maps, "zones": part_synthetic_zones, "files": part_files,
     "short-reads": part_short_reads, "reader-histories": part_reader_histories,
+    "zone-neighbours": part_neighbour_zones, "writer-histories": part_writer_histories,
 }
 
 
@@ -1373,6 +1492,10 @@ def build_items(tier, seed, notes):
     items.append(("strings", None))
     items.append(("dicts", None))
     items.append(("short-reads", None))
+    for op in WH_OPS:
+        items.append(("writer-histories", (op, 5 if tier == "quick" else 6)))
+    for p in (False, True):
+        items.append(("zone-neighbours", (4 if tier == "quick" else 5, p)))
     for op in HIST_OPS:
         items.append(("reader-histories", (op, False, 4, 3 if tier == "quick" else 4)))
         items.append(("reader-histories", (op, True, 3, 3 if tier == "quick" else 4)))
@@ -1408,6 +1531,8 @@ def run(ctx):
         "the two .nzd files in the repository are outputs of the reference Noda Time compiler; the model re-encodes all 788 of their "
         "zone fields byte-identically, which is what 'documented compact encoding' is calibrated against",
         "out-of-domain values (count -1 / 2^31, +-86400000 ms, transitions moving backwards) may be rejected by the writer; if accepted they must round-trip",
+        "a string pool is a plain list shared with its owner, who may change it between writes: each write encodes the index the "
+        "string has at that moment (writer histories bounded to 5, thorough 6, operations)",
         "streams may return fewer bytes than asked (at least one unless at the end): the read side is also run over such streams; "
         "reader call histories are bounded to 3 (thorough: 4) calls on streams of <= 4 bytes over {00, 01, 7f, 80, ff}",
     ]
@@ -1478,6 +1603,14 @@ def replay(rec):
         part_offsets(acc, (v, v + 1))
     elif part == "transition":
         _sweep_transitions(acc, [(case.get("previous"), case.get("value"))])
+    elif part == "writer-history":
+        part_writer_histories(acc, (case["history"][0], len(case["history"])))
+    elif part == "reader-history":
+        part_reader_histories(acc, (case["calls"][0], bool(case.get("pool")), 4, len(case["calls"])))
+    elif part == "short-reads":
+        part_short_reads(acc, None)
+    elif isinstance(case.get("zone"), dict) and "pattern" in case["zone"]:
+        part_neighbour_zones(acc, (len(case["zone"]["pattern"]), bool(case.get("pool"))))
     elif "file" in case:
         for name, path in nzd_files():
             if name == case["file"]:
